@@ -151,7 +151,12 @@ func stmt(a *Act, expRet []byte, literal bool) (string, bool) {
 	case "index":
 		return "r = index(t, " + hx.AwkString(a.Pat.Bytes()) + `) ""`, true
 	case "split":
-		return "n = split(t, A, " + reSrc(a.Sep.Bytes(), literal && a.SepK == "re") + `); r = n ""`, true
+		// the array is not empty beforehand: split replaces whatever it held (length(A) is dumped after the call)
+		// ... and in half of the cases the separator is passed through a variable (same meaning as the constant)
+		if !literal {
+			return `A["k"] = "stale"; A[7] = "old"; sv = ` + reSrc(a.Sep.Bytes(), false) + `; n = split(t, A, sv); r = n ""`, true
+		}
+		return `A["k"] = "stale"; A[7] = "old"; n = split(t, A, ` + reSrc(a.Sep.Bytes(), a.SepK == "re") + `); r = n ""`, true
 	case "sub", "gsub":
 		return "r = " + a.Op + "(" + reSrc(a.Re.Bytes(), literal) + ", " + hx.AwkString(a.Repl.Bytes()) + `, t) ""`, true
 	case "length":
@@ -413,6 +418,11 @@ func Replay(raw json.RawMessage) hx.Outcome {
 	literal := hx.ShortHash(raw)[0]&1 == 1
 	var sb strings.Builder
 	sb.WriteString("BEGIN {\n  delete A\n  t = " + hx.AwkString(h.S.Bytes()) + "\n")
+	// every 4th case (by content hash) first uses 120 other dynamic regular expressions: what the calls return does
+	// not depend on how many regular expressions the program has used before (the interpreter caches compiled ones)
+	if hx.ShortHash(raw)[1]&3 == 0 {
+		sb.WriteString("  for (i = 0; i < 120; i++) junk += (\"zz\" ~ (\"y\" i))\n")
+	}
 	expLines := make([]string, 0, nj)
 	matched, n := false, 0
 	for i := 0; i < nj; i++ {
